@@ -35,6 +35,9 @@ class GenOpts(object):
         self.const_ref_bias = 6      # 1/n of sizes / discriminators refer to a constant when one fits
         self.intlike_bias = 5         # 1/n of integer members (sizers among them) are typed by a typedef (chain) of an integer
         self.rich_size_exprs = False  # array extents written as expressions with shifts / divisions / unary minus (prophy text only)
+        self.oddunion_focus = 0       # 1/n of schemas get an 8-aligned union whose largest arm is a <=4-aligned composite of odd size, in holders
+        self.size_name_exprs = False  # array extents as NAME*k / NAME + k over small constants (both front-ends can say them)
+        self.smallopt_focus = 0       # 1/n of schemas get a fixed struct with a 1/2-byte optional at an odd offset, inside optional / limited array / union
         self.tiny_focus = 0           # 1/n of schemas get an array of dynamic structs that can be shorter than 4 bytes
         self.block_focus = 0          # 1/n of schemas get a struct of 3-5 blocks whose bound arrays find their sizers in any earlier block
         self.const_exprs = False      # constants / enumerators given as expressions over earlier names
@@ -121,6 +124,13 @@ class _Builder(object):
             expr = name
         elif self.o.rich_size_exprs and self.draw(st.integers(0, 2)) == 0:
             expr = self.rich_expr(n)
+        if self.o.size_name_exprs and self.small_consts and self.draw(st.integers(0, 2)) == 0:
+            name, v = self.draw(st.sampled_from(self.small_consts))
+            k = self.draw(st.integers(1, 3))
+            if self.draw(st.booleans()):
+                n, expr = v * k, '%s*%d' % (name, k)
+            else:
+                n, expr = v + k, '%s + %d' % (name, k)
         return n, expr
 
     def rich_expr(self, n):
@@ -373,7 +383,73 @@ class _Builder(object):
             self.add_multiblock_struct()
         if self.o.tiny_focus and self.o.allow_ext and self.draw(st.integers(0, self.o.tiny_focus - 1)) == 0:
             self.add_tiny_dynamic()
+        if self.o.oddunion_focus and self.draw(st.integers(0, self.o.oddunion_focus - 1)) == 0:
+            self.add_odd_union()
+        if self.o.smallopt_focus and self.draw(st.integers(0, self.o.smallopt_focus - 1)) == 0:
+            self.add_small_optional()
         return Schema(self.decls)
+
+    def add_small_optional(self):
+        """A fixed struct whose optional member has a value alignment below 4 and starts at an offset that is no
+        multiple of 4 (the flag's alignment decides its slot), used where only the struct's *static* size matters: as
+        an optional that may be absent, in a limited array that may not be full, as the larger arm of a union."""
+        s_ = self.fresh('S')
+        small = self.draw(st.sampled_from(['u8', 'i8', 'u16', 'i16']))
+        head = [Member('a', 'u8')] if self.draw(st.booleans()) else [Member('a', 'u16'), Member('b', 'u8')]
+        members = head + [Member('o', small, OPT)]
+        if self.draw(st.integers(0, 2)) == 0:
+            members.append(Member('z', 'u8'))
+        self.decls.append(Struct(s_, members))
+        self.stiff[s_] = FIXED
+        self.vec[s_] = False
+        h = self.fresh('S')
+        self.decls.append(Struct(h, [Member('os', s_, OPT), Member('xs', s_, LIMARR, 3), Member('w', 'u32')]))
+        self.stiff[h] = FIXED
+        self.vec[h] = True
+        u = self.fresh('U')
+        self.decls.append(Union(u, [Arm(1, 'u8', 'q'), Arm(2, s_, 's')]))
+        self.stiff[u] = FIXED
+        self.vec[u] = False
+        hu = self.fresh('S')
+        self.decls.append(Struct(hu, [Member('u', u), Member('t', 'u16')]))
+        self.stiff[hu] = FIXED
+        self.vec[hu] = False
+
+    def add_odd_union(self):
+        """A union of alignment 8 whose *largest* arm is a composite of alignment <= 4 and a size that is 1..4 (mod 8)
+        - the shape in which 'discriminator + largest arm' and 'alignment + largest arm' round differently - used as
+        the only member, before an 8-aligned member, and as the element of a trailing bound array."""
+        odd = self.fresh('S')
+        form = self.draw(st.integers(0, 2))
+        if form == 0:
+            members = [Member('a', 'u32'), Member('b', 'u32'), Member('c', 'u32')]
+        elif form == 1:
+            members = [Member('x', 'u8', FIXARR, self.draw(st.sampled_from([9, 10, 17])))]
+        else:
+            members = [Member('a', 'u16'), Member('b', 'u16'), Member('c', 'u16'), Member('d', 'u16'), Member('e', 'u16')]
+        self.decls.append(Struct(odd, members))
+        self.stiff[odd] = FIXED
+        self.vec[odd] = False
+        un = self.fresh('U')
+        wide = self.draw(st.sampled_from(['u64', 'i64']))
+        arms = [Arm(1, odd, 'big'), Arm(2, wide, 'wide')]
+        if self.draw(st.booleans()):
+            arms.append(Arm(3, 'u16', 'small'))
+        if self.draw(st.booleans()):
+            arms.reverse()
+        self.decls.append(Union(un, arms))
+        self.stiff[un] = FIXED
+        self.vec[un] = False
+        h1, h2, h3 = self.fresh('S'), self.fresh('S'), self.fresh('S')
+        self.decls.append(Struct(h1, [Member('c', un)]))
+        self.decls.append(Struct(h2, [Member('c', un), Member('t', self.draw(st.sampled_from(['u64', 'u8', 'u32'])))]))
+        for h in (h1, h2):
+            self.stiff[h] = FIXED
+            self.vec[h] = False
+        if self.o.allow_ext:
+            self.decls.append(Struct(h3, [Member('n', 'u32'), Member('e', h1, EXTARR, sizer='n')]))
+            self.stiff[h3] = DYNAMIC
+            self.vec[h3] = False
 
     def add_tiny_dynamic(self):
         """A dynamic struct whose encoding can be 1-3 bytes (1- or 2-byte sizer, 1- or 2-byte elements, alignment below
